@@ -377,6 +377,20 @@ Section Agree.
     operand_shape sc sel root l = true -> operand_shape sc sel root r = true -> rel_check sc vars b l r = true.
   Proof. intros H1 H2. unfold rel_check. now rewrite (shape_not_rel _ H1), (shape_not_rel _ H2). Qed.
 
+  Lemma enum_col_shape x : operand_shape sc sel root x = true -> enum_col sc vars x = enum_op sc root x.
+  Proof.
+    destruct x as [v ch| | |]; auto. intros H. destruct (shape_attr _ _ H) as [E1 _].
+    apply Z.eqb_eq in E1. subst v. unfold enum_col, enum_op. now rewrite Hvars.
+  Qed.
+  Lemma enum_check_shape op l r :
+    operand_shape sc sel root l = true -> operand_shape sc sel root r = true ->
+    (eqne op || negb (enum_op sc root l || enum_op sc root r)) = true ->
+    negb (eqne op) && (enum_col sc vars l || enum_col sc vars r) = false.
+  Proof.
+    intros H1 H2 H. rewrite (enum_col_shape _ H1), (enum_col_shape _ H2).
+    destruct (eqne op); simpl in *; auto. now apply negb_true_iff in H.
+  Qed.
+
   Lemma unbindable_scalars cs : forallb scalar_val cs = true -> existsb unbindable cs = false.
   Proof.
     induction cs as [|c cs IH]; simpl; auto. rewrite andb_true_iff. intros [H1 H2].
@@ -394,7 +408,8 @@ Section Agree.
       cbn [cond_shape cond_ok] in Hs, Hd; try discriminate.
     - (* comparison *)
       destruct l as [v ch| | |]; try discriminate.
-      apply andb_true_iff in Hs. destruct Hs as [Hs _]. apply andb_true_iff in Hs. destruct Hs as [Hs1 Hs2].
+      apply andb_true_iff in Hs. destruct Hs as [Hs Hen]. apply andb_true_iff in Hs. destruct Hs as [Hs _].
+      apply andb_true_iff in Hs. destruct Hs as [Hs1 Hs2].
       destruct (operand_data sc w sel root o (OAttr v ch)) as [a|] eqn:Ea; try discriminate.
       destruct (operand_data sc w sel root o r) as [b|] eqn:Eb; try discriminate.
       destruct (toperand_ok _ _ _ _ Hinv He Hs1 Ea) as [e1 [st1 [m1 [T1 [I1 [R1 [V1 [P1 [S1 [B1 C1]]]]]]]]]].
@@ -403,7 +418,7 @@ Section Agree.
       destruct (mk_cmp_sound w op e1 e2 a b C1 C2' S1 S2 Hd B2) as [p [M [PB PV]]].
       exists p, st2, (m1 ++ m2), (tv_true (eval_pred (((env ++ m1) ++ m2)) p)).
       cbn [tcond]. unfold tcmp. rewrite (teqjoin_none _ _ _ _ _ _ Hs1 Hs2), (rel_check_shape _ _ _ Hs1 Hs2). cbn [negb].
-      rewrite T1, T2, M. rewrite app_assoc.
+      rewrite T1, T2, (enum_check_shape _ _ _ Hs1 Hs2 Hen), M. rewrite app_assoc.
       assert (PV' : forall more', py_cmp w op a b = Ok (tv_true (eval_pred (((env ++ m1) ++ m2) ++ more') p))).
       { intros more'. apply PV; [rewrite <- (app_assoc (env ++ m1) m2 more'); apply V1 | apply V2]. }
       split; [reflexivity|]. split; [assumption|]. split; [assumption|].
@@ -500,11 +515,13 @@ Proof.
   induction c as [op l r|ct it|p1 IH1 q1 IH2|p1 IH1 q1 IH2|p1 _|x|cs0 it0]; intros io st p st' Hc H;
     cbn [cond_shape] in Hc; try discriminate.
   - destruct l as [v ch| | |]; try discriminate. apply andb_true_iff in Hc. destruct Hc as [Hc _].
+    apply andb_true_iff in Hc. destruct Hc as [Hc _].
     apply andb_true_iff in Hc. destruct Hc as [Hc1 Hc2].
     cbn [tcond] in H. unfold tcmp in H. rewrite (teqjoin_none sc sel root vars io st op v ch r Hc1 Hc2) in H.
     destruct (negb (rel_check sc vars (eqne op) (OAttr v ch) r)); try discriminate.
     destruct (toperand sc vars sel root st (OAttr v ch)) as [a st1| | |] eqn:E1; try discriminate.
     destruct (toperand sc vars sel root st1 r) as [b st2| | |] eqn:E2; try discriminate.
+    destruct (negb (eqne op) && (enum_col sc vars (OAttr v ch) || enum_col sc vars r)); try discriminate.
     assert (B1 := toperand_safe _ _ _ _ Hc1 E1). assert (B2 := toperand_safe _ _ _ _ Hc2 E2).
     destruct (mk_cmp op a b) as [p0|] eqn:Em; try discriminate. injection H as <- <-.
     intros p1 Hp. injection Hp as <-. eapply mk_cmp_bad; eauto.
@@ -571,11 +588,13 @@ Proof.
   induction c as [op l r|ct it|p1 IH1 q1 IH2|p1 IH1 q1 IH2|p1 _|x|cs0 it0]; intros io st p st' Hc Hr H;
     cbn [cond_shape] in Hc; try discriminate.
   - destruct l as [v ch| | |]; try discriminate. apply andb_true_iff in Hc. destruct Hc as [Hc _].
+    apply andb_true_iff in Hc. destruct Hc as [Hc _].
     apply andb_true_iff in Hc. destruct Hc as [Hc1 Hc2].
     cbn [tcond] in H. unfold tcmp in H. rewrite (teqjoin_none sc sel root vars io st op v ch r Hc1 Hc2) in H.
     destruct (negb (rel_check sc vars (eqne op) (OAttr v ch) r)); try discriminate.
     destruct (toperand sc vars sel root st (OAttr v ch)) as [a st1| | |] eqn:E1; try discriminate.
     destruct (toperand sc vars sel root st1 r) as [b st2| | |] eqn:E2; try discriminate.
+    destruct (negb (eqne op) && (enum_col sc vars (OAttr v ch) || enum_col sc vars r)); try discriminate.
     destruct (mk_cmp op a b); try discriminate. injection H as _ <-.
     eapply toperand_relonly; [exact Hc2| |exact E2]. eapply toperand_relonly; [exact Hc1|exact Hr|exact E1].
   - destruct ct as [| |cs|]; try discriminate. destruct it as [v ch| | |]; try discriminate.
@@ -795,7 +814,8 @@ Proof.
   assert (E : teqjoin sc (q_vars q) root false jm0 op (OAttr v ch) (OLit VNull) = None) by (destruct op; reflexivity).
   rewrite E. destruct (negb (rel_check sc (q_vars q) (eqne op) (OAttr v ch) (OLit VNull))); try discriminate.
   destruct (toperand sc (q_vars q) (q_sel q) root jm0 (OAttr v ch)) as [a st1| | |]; try discriminate.
-  cbn [toperand]. destruct op; try discriminate; cbn [mk_cmp]; discriminate.
+  cbn [toperand]. destruct (negb (eqne op) && _); try discriminate.
+  destruct op; try discriminate; cbn [mk_cmp]; discriminate.
 Qed.
 
 (* ---------- every query of the right shape is accepted (a purely syntactic fact) ---------- *)
@@ -836,11 +856,13 @@ Lemma tcond_total c : cond_shape sc sel root c = true ->
   forall io st, exists p st', tcond sc vars sel root io st c = ROk (Some p) st'.
 Proof.
   induction c as [op l r|ct it|p1 IH1 q1 IH2|p1 IH1 q1 IH2|p1 _|x|cs0 it0]; intros Hc io st; cbn [cond_shape] in Hc; try discriminate.
-  - destruct l as [v ch| | |]; try discriminate. apply andb_true_iff in Hc. destruct Hc as [Hc Hn].
+  - destruct l as [v ch| | |]; try discriminate. apply andb_true_iff in Hc. destruct Hc as [Hc Hen].
+    apply andb_true_iff in Hc. destruct Hc as [Hc Hn].
     apply andb_true_iff in Hc. destruct Hc as [Hc1 Hc2].
     cbn [tcond]. unfold tcmp. rewrite (teqjoin_none sc sel root vars io st op v ch r Hc1 Hc2), (rel_check_shape sc sel root vars Hvars _ _ _ Hc1 Hc2).
     cbn [negb named_var]. destruct (toperand_total _ st Hc1) as [a [st1 [T1 A1]]]. rewrite T1.
     destruct (toperand_total _ st1 Hc2) as [b [st2 [T2 A2]]]. rewrite T2.
+    rewrite (enum_check_shape sc sel root vars Hvars _ _ _ Hc1 Hc2 Hen).
     destruct (mk_cmp_total op a b r A1 A2 Hn) as [p M].
     { destruct r; try discriminate; eauto. }
     rewrite M. eauto.
@@ -880,7 +902,7 @@ Module Wit.
     {| sc_fields := [(1, [(3, FScalar); (4, FScalar)]); (3, [(6, FScalar)]);
                      (4, [(7, FRel 1); (8, FRel 3)]); (5, [(1, FScalar); (9, FScalar)]);
                      (8, [(10, FRel 5); (11, FRel 5)]); (9, [(10, FRel 5); (11, FRel 5)])];
-       sc_sub := [(1, 1); (3, 3); (4, 4); (5, 5); (8, 8); (9, 9)] |}.
+       sc_sub := [(1, 1); (3, 3); (4, 4); (5, 5); (8, 8); (9, 9)]; sc_enums := [] |}.
   Definition body1 : list Z := [66; 111; 100; 121; 49].   (* "Body1" *)
   Definition w : world :=
     [ {| o_key := 1; o_cls := 1; o_fields := [(3, VInt 1); (4, VInt 0)] |};
